@@ -311,6 +311,8 @@ func (C10) Execute(sc *core.Scenario, keepLog bool) *core.Result {
 		parser := command.NewParserWithLiteralContinuationCb(rfcparser.NewScannerWithReader(ic), cb)
 		tr.Event("pass", fmt.Sprintf("%d cmds=%d bytes=%d buf=%d", pass, len(cmds), len(data), bufsz))
 
+		kept := make([]command.Command, len(cmds))
+		keptOK := make([]bool, len(cmds))
 		for i, c := range cmds {
 			step = i + 1
 			cmdStart = starts[i]
@@ -353,6 +355,9 @@ func (C10) Execute(sc *core.Scenario, keepLog bool) *core.Result {
 					fail("consumed", fmt.Sprintf("%s: parser consumed %s bytes than the command has", c.kind, c10MoreLess(len(consumed), len(c.wire))), "consumed %d of %d %s", len(consumed), len(c.wire), where)
 				}
 			}
+			if res.V == nil && err == nil && panicked == nil {
+				kept[i], keptOK[i] = got, true
+			}
 			nfrag := rd.reads - readsBefore
 			fragments += rd.shortReads - shortBefore
 			conts += contCalls
@@ -387,6 +392,23 @@ func (C10) Execute(sc *core.Scenario, keepLog bool) *core.Result {
 					if m.pos == x {
 						cutHits[m.class]++
 					}
+				}
+			}
+		}
+		// the server's reader goroutine parses the next command while the previous one is
+		// still being executed: a parsed command must stay what it was after later
+		// commands have been parsed on the same connection
+		if res.V == nil {
+			for i, c := range cmds {
+				if !keptOK[i] {
+					continue
+				}
+				st.Checks++
+				if d := c10Diff(reflect.ValueOf(c.expected), reflect.ValueOf(kept[i]), "cmd"); d != "" {
+					step = i + 1
+					stable, values, _ := strings.Cut(d, "\x00")
+					fail("retained", c.kind+": a parsed command changed after later commands were parsed on the same connection, at "+stable, "%s expected=%s now=%s pass %d cmd %d", values, c10Dump(c.expected), c10Dump(kept[i]), pass, i)
+					break
 				}
 			}
 		}
